@@ -30,7 +30,7 @@ func genSessionReqs(rt *rapid.T, maxLen int) []*refcodec.Msg {
 		out = append(out, r)
 		m.Assume(m.Step(0, r))
 	}
-	fidAlpha := []uint64{0, 1, 2, 3, 4}
+	fidAlpha := []uint64{0, 1, 2, 3, 4, nofid}
 	names := []string{"d", "f", "e", "x", "l", "p", "y", "d", "f", "x"}
 	n := rapid.IntRange(1, maxLen).Draw(rt, "len")
 	for i := 0; i < n; i++ {
